@@ -497,6 +497,32 @@ def k18(rep):
                       "program compiles without a diagnostic")
 
 
+def k19(rep):
+    """The parser learns that its input was wrong from one place: bison calls yyerrorfn, which reports the error and counts it;
+    parse() hands on a tree only when the count is zero.  A call of yyerrorfn that returns without a message and without
+    counting turns a syntax error into `no error`: either the null tree is used (a fault in the next phase) or the recovered
+    tree compiles (an invalid program accepted with exit status 0).  On the CFG of yyerrorfn every path from the entry to the
+    exit passes a message (comsgError / comsgFatal / comsgNError ...) and an increment of yyerrcount."""
+    f = common.extract("parseby.c", trees=["yyerrorfn", "parse"], cfg=["yyerrorfn"])
+    fn = f.func("yyerrorfn")
+    cfg = common.CFG(fn)
+    is_msg = lambda e: e["k"] == "CallExpr" and (e.get("callee") or "").startswith("comsg") and \
+        any(t in e.get("callee") for t in ("Error", "Fatal"))
+    is_inc = lambda e: e["k"] == "UnaryOperator" and e["op"] in ("++", "post++") and (strip(e["c"][0]) or {}).get("n") == "yyerrcount"
+    if not cfg.events(is_msg) or not cfg.events(is_inc):
+        raise AnalysisBroken("yyerrorfn no longer reports through comsgError and counts in yyerrcount")
+    for what, pred, msg in (("reports", is_msg, "without a message"), ("counts", is_inc, "without counting the error")):
+        p = cfg.path_avoiding(cfg.entry, None, pred)
+        key = "every-syntax-error-%s" % what
+        if p is None:
+            rep.ok("K19", key)
+        else:
+            rep.violation("K19", key, "parseby.c:%d (yyerrorfn)" % fn["l"],
+                          "yyerrorfn can return %s: bison has detected a syntax error, but parse() sees a count of zero and hands "
+                          "the (null or recovered) tree on -- the compiler faults in the next phase or accepts the invalid "
+                          "program with exit status 0" % msg, detail={"cfg_path": p[:10]})
+
+
 def both_digest(f):
     return {"k1": k1_digest(f), "exits": exits_digest(f), "k8": k8_digest(f)}
 
@@ -1016,6 +1042,7 @@ def run(tier, only=None):
     k16(rep)
     k17(rep)
     k18(rep)
+    k19(rep)
     from . import variant_dispatch
     variant_dispatch.report_absyn(rep, "K14", ["abnorm.c", "macex.c"], 15)
     from . import variadic
